@@ -198,5 +198,6 @@ def run(ctx, rep):
         crate2 = ctx.mir('codegen-sm')['logos_codegen']
         rep2_before = len(rep.rules['M-C19a']['violations'])
         rule_inventory(rep, crate2)
+    cg.cg_controls(rep, ctx, [('M-C19d', rule_variants)])
     rep.trusted += ['rustc nightly MIR and callee resolution', 'engines/mirfacts', 'the reasons in lib/props/c19_table.py were established by reading the code']
     rep.assumptions += ['input parses as an enum (the property quantifies over enum inputs)', 'third-party crates do not panic on valid calls', 'allocation failure is out of scope']
